@@ -32,7 +32,10 @@ KINDS = {
 NARROW = {frozenset(("int", "num")): "int", frozenset(("str", "date")): "date", frozenset(("str", "datetime")): "datetime", frozenset(("str", "enum_ab")): "enum_ab", frozenset(("str", "enum_a")): "enum_a",
           frozenset(("int", "ienum_12")): "ienum_12", frozenset(("int", "ienum_1")): "ienum_1", frozenset(("enum_ab", "enum_a")): "enum_a", frozenset(("ienum_12", "ienum_1")): "ienum_1",
           frozenset(("arr_int", "arr_num")): "arr_int"}
-MANIFEST_KIND = {"str": "StringProperty", "date": "DateProperty", "datetime": "DateTimeProperty", "int": "IntProperty", "enum_ab": ("EnumProperty", "LiteralEnumProperty"), "enum_a": ("EnumProperty", "LiteralEnumProperty"),
+for _e in ("enum_bc", "enum_dash", "enum_under", "enum_a_dash", "enum_a_under"):
+    NARROW[frozenset(("str", _e))] = _e
+MANIFEST_KIND = {"enum_bc": ("EnumProperty", "LiteralEnumProperty"), "enum_dash": ("EnumProperty", "LiteralEnumProperty"), "enum_under": ("EnumProperty", "LiteralEnumProperty"),
+                 "enum_a_dash": ("EnumProperty", "LiteralEnumProperty"), "enum_a_under": ("EnumProperty", "LiteralEnumProperty"), "str": "StringProperty", "date": "DateProperty", "datetime": "DateTimeProperty", "int": "IntProperty", "enum_ab": ("EnumProperty", "LiteralEnumProperty"), "enum_a": ("EnumProperty", "LiteralEnumProperty"),
                  "ienum_12": ("EnumProperty", "LiteralEnumProperty"), "ienum_1": ("EnumProperty", "LiteralEnumProperty"), "arr_int": "ListProperty"}
 PROBES = ["a", "b", "c", "zz", "done", "in-progress", "in_progress", "failed", "a-b", "a_b", 1, 2, 9, 1.5, True, "2020-01-02", "2020-01-02T03:04:05+00:00", ["s"], [1], [1.5], {"x": "v"}, {"y": 3}, {"k": "kk"}, None, "00000000-0000-4000-8000-0000000000aa"]
 
@@ -66,14 +69,17 @@ def main() -> int:
     kinds = list(KINDS)
     pairs = [(a, b) for a in kinds for b in kinds if kinds.index(a) <= kinds.index(b)]
     variants = [("rr", True, True, None), ("ro", True, False, None), ("oo", False, False, None), ("od1", False, False, 1), ("od2", False, False, 2)]
+    variants.append(("or", False, True, None))
+    narrowing_pairs = [(a, b) for a, b in pairs if frozenset((a, b)) in NARROW or "any" in (a, b)]
     if quick:
-        variants = variants[:1] + [variants[2]] + [variants[3]]
+        variants = variants[:1] + [variants[2]] + [variants[3]] + [variants[1], variants[5]]
     for le in (False, True):
         for vname, req1, req2, dflt in variants:
-            for chunk in range(0, len(pairs), 24):
+            pairs_v = narrowing_pairs if quick and vname in ("ro", "or") else pairs
+            for chunk in range(0, len(pairs_v), 24):
                 comps = {"N": {"type": "object", "properties": {"k": {"type": "string"}}}}
                 cases = {}
-                for pi_, (k1, k2) in enumerate(pairs[chunk:chunk + 24]):
+                for pi_, (k1, k2) in enumerate(pairs_v[chunk:chunk + 24]):
                     i = chunk + pi_
                     s1, s2 = docs.clone(KINDS[k1]), docs.clone(KINDS[k2])
                     if dflt and k1 not in ("any", "obj_x", "obj_y", "ref_n", "arr_str", "arr_int", "arr_num"):
@@ -200,6 +206,11 @@ def main() -> int:
                 vd.violation(f"shared_property_missing:{pairkey}", f"composed class lacks the shared property p", w)
                 continue
             fx, fy = effective(px), effective(py)
+            if k1 != k2:
+                ev.extra.setdefault("distinct_kind_pairs_generated_without_diagnostic", set()).add(pairkey + "->" + str(px["kind"]))
+                if "any" not in (k1, k2) and frozenset((k1, k2)) not in NARROW:
+                    # different types, neither the narrowing of the other (R-MERGE defines no narrowest type): only a diagnostic is allowed
+                    vd.violation(f"silent_choice_between_incompatible_kinds:{pairkey}", f"allOf over {k1}/{k2} (variant {case['variant']}) was generated without a diagnostic as {fx} / {fy}", w)
             if fx != fy:
                 diffk = [k for k in set(fx) | set(fy) if fx.get(k) != fy.get(k)]
                 vd.violation(f"order_dependent:effective_property:{pairkey}:{'+'.join(sorted(diffk))}", f"allOf[{k1},{k2}] gives {fx} but allOf[{k2},{k1}] gives {fy}", w)
@@ -241,6 +252,7 @@ def main() -> int:
             ev.seen(("C15b", pairkey, case["variant"], "generated", style))
             if len(ev.samples) < 4 and nar:
                 ev.sample({"kinds": [k1, k2], "variant": case["variant"], "effective_xy": fx, "effective_yx": fy, "narrowest_expected": nar, "probes": len(ox)})
+    ev.extra["distinct_kind_pairs_generated_without_diagnostic"] = sorted(ev.extra.get("distinct_kind_pairs_generated_without_diagnostic") or [])
     vd.inconclusive_if(ev.counters.get("ordered_pairs", 0) < 200 or ev.counters.get("decode_probes_compared", 0) < 1000, "too few pair observations")
     return run.finish()
 
